@@ -8,6 +8,10 @@ export GOFLAGS=-mod=mod GOPROXY=off GOSUMDB=off GOTOOLCHAIN=local
 wt=$(mktemp -d /tmp/verif-confirm.XXXXXX)
 git -C /repo worktree add --detach "$wt" HEAD >/dev/null 2>&1
 trap 'git -C /repo worktree remove --force "$wt" >/dev/null 2>&1; rm -rf "$wt"' EXIT
+# builds of scratch worktrees go to a throw-away build cache (each tree would
+# otherwise leave hundreds of megabytes in the shared one)
+export GOCACHE="$wt.gocache"
+trap 'git -C /repo worktree remove --force "$wt" >/dev/null 2>&1; rm -rf "$wt" "$wt.gocache"' EXIT
 demo=$(ls "$sd"/*demo*_test.go 2>/dev/null | head -1)
 pkg=pub; grep -q '^package streams' "$demo" && pkg=streams
 run=$(grep -ho 'func Test[A-Za-z0-9_]*' "$demo" | sed 's/func //' | paste -sd'|')
